@@ -22,7 +22,7 @@ func init() {
 		Explanation: "D1 every effect of NewEpoch is preceded by epochNum > stored epoch (and the Alphabet witness, C03); the epoch key is written with Param(epochNum) and has no other writer except the fresh deploy. D2 NewEpoch writes neither candidate family. " +
 			"D3 publication: 'snapshot_'‖id receives the list built from the scan of 'candidate' filtered by State != Offline, 'p'‖BE4(epochNum)‖key → value for every item of the scan of '2', snapshotBlock = current height, exactly one NewEpoch(epochNum) notification on every path. " +
 			"D4 fan-out: one contract.Call(hash, \"newEpoch\", All, epochNum) per item of the forward scan of 'e' (hash = key without the index byte), loop left only on exhaustion, no exception-catching frame; subscription keys are 'e'‖byte(index)‖hash so scan order is subscription order. " +
-			"D5 SubscribeForNewEpoch writes only after the candidate contract was compared with every stored subscriber and found different (membership loop dominates the write), the index is the number of stored entries.",
+			"D5 SubscribeForNewEpoch writes only after the candidate contract was compared with every stored subscriber and found different (membership loop dominates the write), the index is the number of stored entries. M: the contract's own code faults only without the Alphabet witness or with epochNum ≤ the stored epoch (converse of the epoch guard); snapshot loader.",
 		NotCovered: "equality of the published maps with a model after arbitrary histories; behaviour of subscribers.",
 		Run:        runC06,
 	})
@@ -41,7 +41,7 @@ func init() {
 		Level:     "other",
 		Technique: "divisor-non-zero rule over storage writers (must-facts at every writer of the count key), sibling agreement of the retention bounds read off the loop header as canonical linear terms, must-facts at the ring index computation",
 		Explanation: "D1 NewEpoch and Snapshot compute '% stored snapshotCount'; every writer of that key stores a value established > 0 (so any accepted count leaves the contract able to tick). D2 NewEpoch keeps the per-epoch lists of epochs (e−N, e] (drops e−N under e > N); the drop loop of UpdateSnapshotCount covers exactly [cur−old+1, cur−new] (bounds read off the loop as linear terms over the stored epoch, the stored old count and the parameter). " +
-			"D3 Snapshot establishes 0 ≤ diff < count before indexing the ring; ListNodesEpoch scans 'p'‖BE4(epoch) with the same fixed-width encoder that NewEpoch and dropNetmap use. D4 every normal path of UpdateSnapshotCount on which the window shrinks runs the drop loop (skip-edge rule); writer, reader and dropper of the per-epoch lists use one structurally identified fixed-width encoder.",
+			"D3 Snapshot establishes 0 ≤ diff < count before indexing the ring; ListNodesEpoch scans 'p'‖BE4(epoch) with the same fixed-width encoder that NewEpoch and dropNetmap use. D4 every normal path of UpdateSnapshotCount on which the window shrinks runs the drop loop (skip-edge rule); writer, reader and dropper of the per-epoch lists use one structurally identified fixed-width encoder. M: Snapshot reads slot (current − diff + count) % count and faults only for diff outside 0 … count−1; NewEpoch advances the ring index by one modulo count.",
 		NotCovered: "correctness of the legacy ring rotation (moveSnapshot index arithmetic, modular positions after repeated resizes): relations between run-time integers, not decidable by this family — declared not applicable for that clause.",
 		Run:        runC08,
 	})
